@@ -400,9 +400,9 @@ func runC11(c *Ctx) {
 				st := fa.X.Type().Underlying().(*types.Pointer).Elem().Underlying().(*types.Struct)
 				switch st.Field(fa.Field).Name() {
 				case "Constructor":
-					ctor = closureOf(s.Val)
+					ctor = unbound(closureOf(s.Val))
 				case "Destructor":
-					dtor = closureOf(s.Val)
+					dtor = unbound(closureOf(s.Val))
 				case "MaxSize":
 					maxOK = core.FieldOrigin(s.Val, 0) == "Options.MaxConns"
 				}
@@ -454,6 +454,19 @@ func closureOf(v ssa.Value) *ssa.Function {
 		return closureOf(x.X)
 	}
 	return nil
+}
+
+// unbound follows a synthetic bound-method / thunk wrapper to the method it calls.
+func unbound(fn *ssa.Function) *ssa.Function {
+	if fn == nil || fn.Synthetic == "" {
+		return fn
+	}
+	for _, call := range core.Calls(fn) {
+		if sf := core.StaticFn(call); sf != nil && sf.Blocks != nil {
+			return sf
+		}
+	}
+	return fn
 }
 
 // lifetimeCmp matches `age > options.<field>` (true = expired).
